@@ -4,6 +4,15 @@ import json
 props = [json.loads(l) for l in open('/verif/properties.jsonl')]
 ASSUME = "Trusted base: the simulator (simrt scheduler, simetcd/simnet/simdisk/simtikv models), the go/ast rewrite (R1-R5) of a scratch copy of /repo, the deterministic-runtime overlay, and the oracle code. etcd, gRPC, TiKV and the OS clock are models; interleavings are explored at seams only; sampling, not proof."
 claimed = {
+ "C15": dict(level="exploration", engine="e1", design="7/C15",
+   text="Seeded search over interleavings of 2-5 concurrent UpdateGCSafePoint/GetGCSafePoint clients against the real handlers of a bootstrapped leader at the granularity of individual storage reads and writes (optionally with clean storage failures, delays, per-task freezes). The recorded history is checked with porcupine against a max-register (failed updates: maybe applied at any later time); a commit hook in the simulated etcd asserts that the stored safe point never decreases; a sequential service-safe-point client is checked operation by operation against the stored entries (min never above a live service, below-min registration not recorded, gc_worker entry always present with infinite TTL, expired / non-positive-TTL entries gone).",
+   technique="deterministic simulation; porcupine linearizability check against a max-register model plus commit-level monotonicity invariant"),
+ "C18": dict(level="fault_enumeration", engine="e1", design="7/C18",
+   text="Fault enumeration: groups of 12 runs share one seeded sequence of configuration updates (valid and out-of-domain values for all six sections) applied through the real Server setters; run k makes the k-th configuration write fail (clean, or applied-but-reported-failed). Per update: out-of-domain never accepted, rejected => served configuration JSON unchanged; finally the leader is crashed and a new leader's reloadConfigFromKV must serve the last accepted configuration (modulo the documented trace-region-flow migration).",
+   technique="deterministic simulation with an enumerated storage failure at each configuration write and a crash/reload refinement check"),
+ "C20": dict(level="exploration", engine="e1", design="7/C20",
+   text="Seeded search: 1-3 members started concurrently race initOrGetClusterID (etcd errors incl. unknown outcome), then rounds of 2-6 concurrent Bootstrap requests with distinct and malformed payloads to leader and non-leaders, with a leader change between rounds, plus requests carrying a foreign cluster id to eight handlers. Oracles in the simulated etcd: /pd/cluster_id written once and reported by every member; bootstrap keys written by exactly one commit whose store/region/meta all come from one request which is the acknowledged (or an unknown-outcome) one; at most one acknowledgement; malformed never acknowledged; foreign cluster id always refused.",
+   technique="deterministic simulation with commit-level exactly-once oracle"),
  "C01": dict(level="exploration", engine="e1", design="7/C01",
    text="Seeded search: 1-3 real PD servers, 2-6 concurrent TSO stream clients with counts 1..2^18, manual reset-ts (accepted/rejected), under crash+restart, lease loss, leader-key deletion, etcd-leader moves, etcd errors (clean and unknown outcome), partitions, whole-process and per-task stalls and wall-clock skew/jumps up to hours. History oracle: granted ranges of one allocator pairwise disjoint; a request that began after another completed gets strictly larger values; logical part fits 18 bits; response count equals request count.",
    technique="deterministic simulation (seeded scheduler + fault injection) with a real-time-order/uniqueness history oracle"),
